@@ -220,6 +220,19 @@ pub fn life(quick: bool) -> Vec<Scenario> {
             sub(SubmitSpec::array(&[0], RqSpec::cpus(1).min_time(200))),
         ]],
     ));
+    // an urgent task whose variants split what the worker offers between them (one fits its
+    // resources but not its remaining lifetime, the other the lifetime but not the resources):
+    // it can run nowhere and must not hold the worker against the less urgent task
+    v.push(Scenario::new(
+        "life-variants-time-vs-resources",
+        vec![w(2).time_limit(100)],
+        vec![vec![
+            sub(SubmitSpec::array(&[0], RqSpec::cpus(2))
+                .variants(vec![RqSpec::cpus(2).entry("gpus", "compact", 10_000), RqSpec::cpus(2).min_time(1000)])
+                .prio(5)),
+            sub(arr(&[0], 1)),
+        ]],
+    ));
     if !quick {
         v.push(
             Scenario::new("life-3t-2w-kill-err", vec![w(1), w(1)], vec![vec![sub(arr(&[0, 1, 2], 1))]])
